@@ -6,7 +6,7 @@
 //
 // for every package-level variable of package hermes and of the batch main package
 // (test files and files carrying a verif build constraint excluded) and for every field
-// of the structs HermesSession and FilePool.  kind: assign incdec addr delete ptrcall:<method>,
+// of the structs HermesSession and FilePool.  kind: assign incdec addr delete ptrcall:<method> synctype,
 // and read (struct fields only).  A site is "locked" when it lies after a call
 // <x>.mux.Lock() of the same function with no non-deferred <x>.mux.Unlock() in between.
 //
@@ -178,7 +178,15 @@ func scanPackage(dir, label string, imp types.Importer, out *ssOut, structs []st
 				continue
 			}
 			for _, sp := range gd.Specs {
-				for _, id := range sp.(*ast.ValueSpec).Names {
+				vs := sp.(*ast.ValueSpec)
+				decl := ""
+				if vs.Type != nil {
+					decl = types.ExprString(vs.Type)
+				}
+				for _, v := range vs.Values {
+					decl += " " + types.ExprString(v)
+				}
+				for _, id := range vs.Names {
 					if id.Name == "_" {
 						continue
 					}
@@ -186,6 +194,10 @@ func scanPackage(dir, label string, imp types.Importer, out *ssOut, structs []st
 						name := label + "." + id.Name
 						tracked[o] = name
 						out.add("VAR %s %s", name, pos(id.Pos()))
+						// a variable whose type comes from sync / sync/atomic exists to be written concurrently
+						if strings.Contains(decl, "sync.") || strings.Contains(decl, "atomic.") {
+							out.add("SITE %s synctype declaration %s 0", name, pos(id.Pos()))
+						}
 					}
 				}
 			}
@@ -339,6 +351,14 @@ func scanFunc(fd *ast.FuncDecl, info *types.Info, tracked, fields map[types.Obje
 							if _, isPtr := r.Type().(*types.Pointer); isPtr {
 								report(se.X, "ptrcall:"+se.Sel.Name)
 							}
+						}
+					}
+				} else if s == nil {
+					// no type information (the type comes from a stubbed import, e.g. sync.Map,
+					// atomic.Int64): a method call on a package-level variable counts as a write
+					if id := rootIdent(se.X); id != nil {
+						if _, ok := tracked[info.Uses[id]]; ok {
+							report(se.X, "ptrcall:"+se.Sel.Name)
 						}
 					}
 				}
